@@ -94,7 +94,8 @@ KnownFlaw(r, m) == Flaw_RootSymlinkCopied /\ r.k = "l" /\ ~m.link
 InvFaithful == \A m \in Modes : ~KnownFlaw(root, m) => Allowed(root, tree, m, Algo(root, tree, m))
 \* the model never fails where linking was possible or a fallback was allowed
 InvNoSpuriousFailure == \A m \in Modes : (~KnownFlaw(root, m) /\ ~MayFail(root, tree, m)) => Algo(root, tree, m).ok
-\* EXPECTED TO FAIL while the flaw is in the code (MC_FileOps_known.cfg sets Flaw_RootSymlinkCopied = FALSE)
+\* MC_FileOps_known.cfg sets Flaw_RootSymlinkCopied = FALSE: InvFaithful is then EXPECTED TO FAIL for as long as
+\* the flaw is in the code (a symlink root in copy mode); when it stops failing the constant can be deleted.
 
 Entries(t) == [i \in 1..Cardinality(DOMAIN t) |->
                  LET p == SetToSortSeq(DOMAIN t, PathLess)[i] IN [p |-> p, k |-> t[p].k, c |-> t[p].c, t |-> t[p].t]]
